@@ -16,6 +16,7 @@ from __future__ import annotations
 
 import fractions
 import itertools
+import json
 import os
 import re
 import sys
@@ -223,6 +224,23 @@ def parse_svg(svg: str):
     return root, ids, refs, defs_ids, groups, vb
 
 
+DEF_KIND = {"symbol": "symbol", "marker": "marker", "linearGradient": "gradient", "radialGradient": "gradient"}
+
+
+def defs_sequence(root) -> list:
+    """children of <defs> in document order: [kind, id, [every id defined inside, in document order]]"""
+    out = []
+    for d in root.iter(SVGNS + "defs"):
+        if d.getparent() is not root:
+            continue
+        for el in d:
+            if not isinstance(el.tag, str):
+                continue
+            tag = el.tag.split("}")[-1]
+            out.append([DEF_KIND.get(tag, tag), el.get("id") or "", [x.get("id") for x in el.iter() if isinstance(x.tag, str) and x.get("id") is not None]])
+    return out
+
+
 def group_texts(root, gid):
     """list of text elements (each: list of tspan strings) inside the top-level group with that id"""
     out = []
@@ -286,6 +304,18 @@ def monitor(out: Outcome, case: dict, svg: str | None, err: BaseException | None
         for x in dup:
             if x not in out.extra["duplicate_ids_seen"]:
                 out.extra["duplicate_ids_seen"].append(x)
+        from lxml import etree
+
+        for x in dup:  # ... but a reference to an id with two *different* definitions does not point to "a definition"
+            forms = {etree.tostring(el, method="c14n") for el in root.iter() if isinstance(el.tag, str) and el.get("id") == x}
+            if len(forms) > 1 and x in refs:
+                fail("ambiguous-ref", f"id {x!r} is referenced and has {len(forms)} different definitions")
+    top = [e[1] for e in defs_sequence(root)]
+    if len(top) != len(set(top)):  # the same marker / gradient / symbol deployed twice: harmless when identical, information only
+        out.extra.setdefault("defs_children_with_same_id", [])
+        for x in sorted({i for i in top if top.count(i) > 1}):
+            if x not in out.extra["defs_children_with_same_id"]:
+                out.extra["defs_children_with_same_id"].append(x)
     dangling = sorted(refs - set(ids))
     if dangling:
         classes = {e.styleclass for e in dg}
@@ -380,6 +410,72 @@ def variants(ctx: Ctx, kind: str, cls: str, markers: list[str]):
         yield "label", [{"kind": "box", "uuid": "_parent", "cls": "LogicalComponent", "label": "parent", "ports": [{"uuid": u, "cls": cls, "floating": [gen_label(rng, 5)]}]}]
 
 
+HISTORY_BOX = ["Mission", "Capability", "OperationalCapability", "LogicalHumanActor", "SystemHumanActor", "LogicalHumanComponent",
+               "PhysicalNodeHumanActor", "StickFigure", "StandaloneStickFigure", "Error", "NoSuchClass", "Note", "Requirement", "Class",
+               "Enumeration", "LogicalFunction", "SystemFunction", "LogicalComponent", "FunctionalExchange", "State", "Mode"]
+
+
+def gen_history(rng, box_classes, edge_classes, markers, ports):
+    """a diagram of several elements that share (or nearly share) markers, strokes, gradients, icons and icon dependencies:
+    what the second, third ... `draw_object` does depends on what the earlier ones left in <defs> and `deco_cache`"""
+    from capellambse.diagram import capstyle
+
+    RGB = capstyle.RGB
+    # values the aird parser can produce: opaque colours, two-stop gradients (`get_style`: "a two-element list of RGBs").
+    # Outside that space the renderer raises: RGB with alpha < 1 -> '#RRGGBBAA' rejected by svgwrite; a gradient of n != 2
+    # colours -> `_make_lgradient` ValueError (stop_opacity has two entries). Observed by this generator, recorded in design/C18.md.
+    strokes = [RGB(1, 2, 3), RGB(0xAB, 0xCD, 0xEF), RGB(0, 0, 0), RGB(0xAB, 0xCD, 0xEE)]
+    grads = [[RGB(10, 20, 30), RGB(200, 210, 220)], [RGB(1, 1, 1), RGB(2, 2, 2)], [RGB(200, 210, 220), RGB(10, 20, 30)], [RGB(7, 7, 7), RGB(7, 7, 7)]]
+    elems, tags = [], set()
+    for i in range(rng.randint(2, 7)):
+        kind = rng.choice(["box", "box", "box", "edge", "edge", "symbol", "box_symbol", "circle", "port"])
+        u = f"_h-{i}"
+        st = {}
+        if kind == "edge":
+            cls = rng.choice(edge_classes)
+            r = rng.random()
+            if r < 0.5:
+                st[rng.choice(["marker-end", "marker-start"])] = rng.choice(markers)
+            if r < 0.2:
+                st["marker-start"] = rng.choice(markers)
+            if rng.random() < 0.5:
+                st["stroke"] = rng.choice(strokes)
+            if rng.random() < 0.2:
+                st["text_fill"] = rng.choice(grads)
+            if rng.random() < 0.15:
+                st["stroke-width"] = rng.choice([1, 3])
+            elems.append({"kind": "edge", "uuid": u, "cls": cls, "style": st, "edge_labels": ["el"] if rng.random() < 0.6 else []})
+        elif kind == "circle":
+            if rng.random() < 0.5:
+                st["stroke"] = rng.choice(strokes)
+            elems.append({"kind": "circle", "uuid": u, "cls": rng.choice(edge_classes), "style": st})
+        elif kind == "port":
+            elems.append({"kind": "box", "uuid": u, "cls": rng.choice(box_classes), "label": "p" if rng.random() < 0.5 else "",
+                          "ports": [{"uuid": u + "-p", "cls": rng.choice(ports), "floating": ["pl"] if rng.random() < 0.3 else []}]})
+        else:
+            cls = rng.choice(HISTORY_BOX) if rng.random() < 0.6 else rng.choice(box_classes)
+            for key in ("fill", "text_fill", "stroke"):
+                if rng.random() < 0.25:
+                    st[key] = rng.choice(grads) if key != "stroke" or rng.random() < 0.3 else rng.choice(strokes)
+            e = {"kind": kind, "uuid": u, "cls": cls, "style": st}
+            r = rng.random()
+            if kind == "symbol":
+                if r < 0.4:
+                    e["floating"] = ["fl"]
+            else:
+                if r < 0.7:
+                    e["label"] = "lbl"
+                if kind == "box" and rng.random() < 0.3:
+                    e["features"] = ["f1", "f2"]
+                if rng.random() < 0.2:
+                    e["floating"] = ["fl"]
+            if rng.random() < 0.1:
+                e["hidden"] = True
+            elems.append(e)
+        tags.add(kind)
+    return elems
+
+
 # ------------------------------------------------------------------ the run
 
 
@@ -392,7 +488,7 @@ def _imports():
     import capellambse  # noqa: F401
 
 
-def run_case(out: Outcome, case: dict, requests: list, pending: list, use_model: bool):
+def run_case(out: Outcome, case: dict, requests: list, pending: list, use_model: bool, seq=None):
     dg, elems, visible, hidden, labels = build(case)
     svg, err = None, None
     try:
@@ -413,6 +509,10 @@ def run_case(out: Outcome, case: dict, requests: list, pending: list, use_model:
             impl = {"viewBox": [int(x) for x in vb], "groups": [list(g) for g in groups], "refs": sorted(refs), "defs": sorted(set(defs_ids))}
         requests.append(req)
         pending.append((case, impl))
+        if seq is not None:  # the <defs> section as a sequence (stateful model `renderS`)
+            seq[0].append(dict(req, op="svg.renderS"))
+            seq[1].append((case, {"raise": impl["raise"]} if "raise" in impl else
+                           {"viewBox": impl["viewBox"], "groups": impl["groups"], "refs": impl["refs"], "defs": defs_sequence(parsed[0])}))
 
 
 def run(ctx: Ctx) -> Outcome:
@@ -425,6 +525,7 @@ def run(ctx: Ctx) -> Outcome:
     use_model = os.environ.get("VERIF_NO_MODEL") != "1"
     requests: list[dict] = []
     pending: list = []
+    seq: tuple[list, list] = ([], [])
     dist: dict[str, int] = {}
     live = gen_styles.collect()
     markers = [m["name"] for m in live["markers"]]
@@ -443,11 +544,21 @@ def run(ctx: Ctx) -> Outcome:
             n += 1
             for vname, elems in vs:
                 case = {"dc": dc, "kind": kind, "cls": cls, "variant": vname, "elems": elems}
-                run_case(out, case, requests, pending, use_model)
+                run_case(out, case, requests, pending, use_model, seq)
                 out.case((dc, kind, cls, vname), {"dc": dc, "kind": kind, "cls": cls, "variant": vname} if len(out.samples) < 6 and ctx.rng.random() < 0.001 else None)
                 out.traces_validated += 1
                 dist[f"kind:{kind}"] = dist.get(f"kind:{kind}", 0) + 1
                 dist[f"variant:{vname.split('=')[0]}"] = dist.get(f"variant:{vname.split('=')[0]}", 0) + 1
+
+    # ---- histories: several elements on one drawing (what is already in <defs> / deco_cache decides what is added)
+    for i in range(ctx.pick(400, 4000)):
+        elems = gen_history(ctx.rng, box_classes, edge_classes, markers, ports)
+        case = {"dc": ctx.rng.choice(dcs), "kind": "history", "cls": "+".join(e["cls"] for e in elems)[:60], "variant": f"history-{i}", "elems": elems}
+        run_case(out, case, requests, pending, use_model, seq)
+        out.case(("history", case["dc"], json.dumps(elems, sort_keys=True, default=str)), None)
+        out.traces_validated += 1
+        dist["variant:history"] = dist.get("variant:history", 0) + 1
+        dist[f"history_len:{len(elems)}"] = dist.get(f"history_len:{len(elems)}", 0) + 1
 
     # ---- label fidelity: seeded labels over the XML-legal alphabet on a few classes and sizes
     for i in range(ctx.pick(300, 3000)):
@@ -541,6 +652,26 @@ def run(ctx: Ctx) -> Outcome:
 
     # ---- model side
     if use_model:
+        seq_answers = common.model(seq[0], driver="Svg")
+        for (case, impl), ans in zip(seq[1], seq_answers):
+            m = ans.get("ok")
+            key = {k: case[k] for k in ("dc", "kind", "cls", "variant")} | {"elems": case["elems"]}
+            if m is None:
+                out.disagree("driver-error", key, impl, ans)
+                continue
+            if "raise" in m:
+                if "raise" not in impl:
+                    out.disagree("defs-sequence", key, impl, {"raise": m["raise"]})
+                out.hit("defs-model:raise:" + m["raise"])
+                continue
+            d = m["ok"]
+            mm = {"viewBox": d["viewBox"], "groups": d["groups"], "refs": sorted(set(d["refs"])), "defs": d["defs"]}
+            if mm != impl:
+                out.disagree("defs-sequence", key, impl, mm)
+            for b in d["log"]:
+                out.hit("defs-model:" + b)
+            out.extra["defs_sequence_cases"] = out.extra.get("defs_sequence_cases", 0) + 1
+            out.extra["defs_sequence_max_children"] = max(out.extra.get("defs_sequence_max_children", 0), len(d["defs"]))
         answers = common.model(requests + wrap_reqs + [{"op": "svg.dump-tables"}], driver="Svg")
         for (case, impl), ans in zip(pending, answers[: len(requests)]):
             m = ans.get("ok")
